@@ -315,6 +315,35 @@ func probes(x *ctx) error {
 			x.rep.Diverge(common.Divergence{Engine: "config", Case: cs, Impl: r.Line, Model: mo[0].plain, Note: "set file with an absurd capacity hint"})
 		}
 	}
+	// split-address clients: for each non-direct protocol with UDP, a client with BOTH networks enabled and only one of
+	// tcpAddress / udpAddress must be refused; if it is accepted, the smoke traffic goes through it (a zero
+	// conn.Addr as UDP / TCP server address is what the first session would resolve)
+	for _, p := range []string{"socks5", "none", "2022-blake3-aes-128-gcm"} {
+		for _, form := range []string{"tcp-only", "udp-only"} {
+			via := ClientC{Name: "via", Proto: p, Addr: "@TEST@", ETCP: true, EUDP: true, MTU: 1500, TA: form == "tcp-only", UA: form == "udp-only"}
+			test := ServerC{Name: "test", Proto: p, MTU: 1500, Listen: "@TEST@", TL: []TLc{{Net: "tcp"}}, UL: []ULc{{Net: "udp"}}}
+			if isSS(p) {
+				via.PSK, test.PSK = 16, 16
+			}
+			c := ConfigC{
+				Servers: []ServerC{{Name: "front", Proto: "socks5", MTU: 1500, Listen: "@FRONT@", TL: []TLc{{Net: "tcp"}}, UL: []ULc{{Net: "udp"}}}, test},
+				Clients: []ClientC{{Name: "out", Proto: "direct", ETCP: true, EUDP: true, MTU: 1500}, via},
+				Router:  RouterC{DT: "out", DU: "out", Routes: []RouteC{{Name: "front-to-test", Cl: "via", FS: []string{"front"}}}},
+			}
+			cs := Case{Kind: "smoke", Probe: "client-address-" + form, Cfg: c}
+			mo, err := runModel(x, []ConfigC{c})
+			if err != nil {
+				return err
+			}
+			var m *modelOut
+			if mo != nil {
+				m = &mo[0]
+			}
+			if impl := evalLoad(x, cs, m); impl.Eff != nil {
+				evalSmoke(x, cs, SmokePlan{Doc: smokeDoc(c), Mode: "socks"}, "")
+			}
+		}
+	}
 	// F4: direct + tunnelUDPTargetOnly + DOMAIN tunnel address + a UDP listener: accepted, then the first reply datagram panics
 	{
 		c := ConfigC{
